@@ -6,14 +6,15 @@ par=${1:-3}
 out=selftest/results.tsv; : > $out
 job() {
   f=$1; b=$(basename "$f" .diff); id=${b%%_*}
-  case "$f" in seeded/*) id=$(basename "$(dirname "$f")"); id=${id%%-*}; b="seed:$(basename "$(dirname "$f")")";; esac
+  case "$f" in seeded/*) id=$(basename "$(dirname "$f")"); id=${id%%-*}; b="seed:$(basename "$(dirname "$f")")"
+      w=$(python3 -c "import json,sys; print(json.load(open(sys.argv[1])).get('detect_with',''))" "$(dirname "$f")/meta.json" 2>/dev/null); [ -n "$w" ] && id=$w;; esac   # a seed whose defect belongs to another property's check
   t0=$(date +%s); r=$(./selftest/run_mutant.sh "$f" "$id" 2>&1); rc=$?; t1=$(date +%s)
   v=$(echo "$r" | grep -c "^VIOLATION"); k=$(echo "$r" | grep -c "^KNOWN-FINDING")
   first=$(echo "$r" | grep -A1 -m1 "^VIOLATION" | tail -1 | cut -c1-160 | tr '\t|' '  ')
   printf '%s\t%s\t%s\t%s\t%s\t%s\n' "$b" "$id" "$rc" "$v" "$((t1-t0))" "$first" >> selftest/results.tsv
 }
 export -f job
-( ls selftest/mutants/*.diff; ls seeded/*/patch.diff ) | xargs -P "$par" -I{} bash -c 'job {}'
+( ls selftest/mutants/*.diff; ls seeded/C*/patch.diff ) | xargs -P "$par" -I{} bash -c 'job {}'
 python3 - <<'P'
 rows=[l.rstrip("\n").split("\t") for l in open("selftest/results.tsv")]
 rows.sort()
